@@ -20,7 +20,7 @@ let () = each_line (fun l ->
     let truth = incl_dec a b in
     let fails = ref [] in
     List.iteri (fun i v ->
-      let ok = (match v with "0" -> gate_verdict a b false | "1" -> gate_verdict a b true | _ -> false) in
+      let ok = (match v with "0" -> gate_verdict a b false | "1" -> gate_verdict a b true | "T" -> true (* time limit: inconclusive *) | _ -> false) in
       if not ok then fails := names.(i) :: !fails) vs;
     if not (prepared_lang a b sa sb) then fails := "sanitize_lang" :: !fails;
     if not (ta_same a ia && ta_same b ib) then fails := "operand_changed" :: !fails;
@@ -29,4 +29,5 @@ let () = each_line (fun l ->
     ^ (if drift = [] then "" else " DRIFT " ^ String.concat "," drift)
     ^ (if truth then " included" else " notincluded")
     ^ (if is_empty a then " Aempty" else " Anonempty") ^ (if is_empty b then " Bempty" else " Bnonempty")
+    ^ (if List.mem "T" vs then " timeout" else "")
   | _ -> "FAIL exception " ^ o)
